@@ -85,6 +85,10 @@ def cls(code):
     return 1 if code == 2 else code
 
 
+class _Abort(Exception):
+    pass
+
+
 def prop(case):
     from kyupy.logic_sim import LogicSim
     nl, m, sims = case['nl'], case['m'], case['sims']
@@ -96,6 +100,8 @@ def prop(case):
     outs = [(b.s_pos(n), n.ins[0]) for n in b.po] + [(b.s_pos(n), n.ins[0]) for k, n in enumerate(b.st) if nl['st'][k]['d'] is not None]
     planes = {2: 1, 4: 2, 8: 3}[m]
 
+    aborted_first = (case['target'] // 4) % 3 == 0
+
     def fresh():
         s = LogicSim(c, sims, m=m, c_reuse=case['c_reuse'], strip_forks=case['strip_forks'])
         mv = np.full((s_len, sims), 2 if m > 2 else 0, dtype=np.uint8)
@@ -106,6 +112,20 @@ def prop(case):
             s = pickle.loads(pickle.dumps(s))
         elif case.get('copied') == 2:
             s = copy.deepcopy(s)
+        if aborted_first:
+            # history: an earlier propagation on this simulator whose callback raised after a few signals (the caller caught the exception);
+            # the simulator is assigned and propagated again afterwards like any other
+            seen = []
+
+            def raiser(line, arr):
+                seen.append(1)
+                if len(seen) > case['target'] % 4:
+                    raise _Abort()
+            s.s_to_c()
+            try:
+                s.c_prop(inject_cb=raiser)
+            except _Abort:
+                pass
         return s
 
     def results(s):
@@ -270,6 +290,7 @@ def prop(case):
     if cycles: labels.append('through_cycle')
     if len(b.c.lines) >= 256: labels.append('>=256_lines')
     if case.get('copied'): labels.append('simulator_pickled_or_copied')
+    if aborted_first: labels.append('after_a_propagation_aborted_by_a_raising_callback')
     if case.get('cbform'): labels.append(['', 'callback_bound_method', 'callback_partial', 'callback_callable_container', 'callback_returns_an_array'][case['cbform']])
     if differs: labels.append('replacement_differs')
     if any(in_fo) and not all(in_fo): labels.append('target_partially_observable')
